@@ -67,9 +67,7 @@ type crashNode struct {
 
 func (n *crashNode) openChain(crashAt int) (err error, crashed bool) {
 	n.wrap = &crashDB{DB: n.real, crashAt: crashAt}
-	fresh := NewParams(n.f.Base, NetOpts{Maturity: n.f.Params.CoinbaseMaturity, BIP34: n.f.Params.BIP0034Height < 1000})
-	fresh.GenesisBlock = n.f.Params.GenesisBlock
-	fresh.GenesisHash = n.f.Params.GenesisHash
+	fresh := n.f.NodeParams()
 	defer func() {
 		if r := recover(); r != nil {
 			if _, ok := r.(crashSentinel); ok {
